@@ -3,7 +3,7 @@ between the current source (abstractly evaluated) and the reference model of DES
 from __future__ import annotations
 
 from sa.harness import H
-from sa.ae import Obj, SetV
+from sa.ae import Obj, SetV, Seq
 from rules import common, struct
 
 LEVEL = "proof"
@@ -32,16 +32,15 @@ def check(res, rec):
             else:
                 v = rec.out.value
                 if rec.op in ("create", "link_from_to", "link_directed", "link_undirected"):
-                    if not (isinstance(v, Obj) and v.name == rec.mr):
-                        why = f"returned {struct.outcome_name(rec.out)}, model returns {rec.mr}"
+                    if not (isinstance(v, Obj) and v.name in getattr(rec, "alts", [rec.mr])):
+                        why = f"returned {struct.outcome_name(rec.out)}, model returns {' or '.join(getattr(rec, 'alts', [rec.mr]))}"
                     elif rec.op != "create" and rec.arg[1] and rec.mr in rec.pre["lverts"] and any(n.startswith("new") for n in rec.post["lverts"]):
                         why = "dontdup=True allocated a link although a joining link exists"
                 elif rec.op == "unlink":
                     if rec.mr is None:
-                        if v is not None:
-                            why = f"unlink(destroy=True) returned {struct.outcome_name(rec.out)}"
-                    elif not (isinstance(v, SetV) and {x.name for x in v.items} == rec.mr and len(v.items) == len(rec.mr)):
-                        why = f"unlink(destroy=False) returned {struct.outcome_name(rec.out)}, model returns {sorted(rec.mr)}"
+                        pass   # what unlink(destroy=True) returns is not specified
+                    elif not (isinstance(v, (SetV, Seq)) and not (isinstance(v, Seq) and v.has_seg()) and sorted(x.name for x in v.items if isinstance(x, Obj)) == sorted(rec.mr) and len(v.items) == len(rec.mr)):
+                        why = f"unlink(destroy=False) returned {struct.outcome_name(rec.out)}, model returns exactly {sorted(rec.mr)}"
                 elif rec.op == "vertex_links":
                     pass
                 elif v is not None:
